@@ -28,6 +28,7 @@ from myst_parser.mdit_to_docutils.transforms import (
     HideNestedTransitions,
     ResolveAnchorIds,
     SortFootnotes,
+    UniqueContentsIds,
     UnreferencedFootnotesDetector,
 )
 from myst_parser.parsers.mdit import create_md_parser
@@ -257,6 +258,7 @@ class Parser(RstParser):
             SortFootnotes,
             CollectFootnotes,
             HideNestedTransitions,
+            UniqueContentsIds,
             ResolveAnchorIds,
         ]
 
